@@ -49,8 +49,8 @@ func GenIdent(t *rapid.T, used map[string]bool, label string) Ident {
 		var id Ident
 		if rapid.IntRange(0, 5).Draw(t, label+"q") == 0 {
 			n := rapid.SampledFrom(quotedNames).Draw(t, label+"qn")
-			if n == "" && label != "col" {
-				n = "q" // (tables and indexes; a column may have the empty name)
+			if n == "" && label != "col" && label != "in" {
+				n = "q" // (tables; a column or an index may have the empty name)
 			}
 			id = Ident{n, quote(n, rapid.IntRange(1, 3).Draw(t, label+"qs"))}
 		} else {
